@@ -42,6 +42,13 @@ chk("C13", "Coq theorems: the span captured for a lazy value is whitespace + exa
     "The one-level lazy load and the atomic caches are C18's subject; accessor agreement is decided by the correspondence.",
     "Coq proof (skipper soundness, list frame lemmas) + model-vs-code correspondence")
 
+chk("C07", "Coq theorems: plain integer literals are parsed and classified exactly for every digit list (19-digit wrapping accumulation never wraps; 20-digit overflow test; >20 digits never fit); the Clinger fast path m*10^e (m<2^53, 0<=e<=22) is one correctly rounded multiplication (Flocq); POW10_UINT, POW10_FLOAT and all 651 entries of POWER_OF_FIVE_128 regenerated from the source equal their definitions. Tie: ~8k literals per run (boundaries, every digit count, every power of ten, exact midpoints between doubles, alignment sweeps, huge exponents) through parse_number, the DOM and 12 typed targets against Spec/Num.v, plus simd_str2int hook and Rust's str::parse as second opinion on the spec.",
+    "PARTIAL: the Eisel-Lemire and big-decimal slow paths are validated against the specification, not proved; Spec/Num.v's rounding is by exact integer arithmetic and is not proved equal to Flocq's operator. Flocq theorems depend on the four Reals axioms of the standard library.",
+    "Coq proof (arithmetic, Flocq, table sweeps) + model-vs-code correspondence")
+chk("C08", "Coq theorems on the reading side: the raw-number scanner accepts exactly the RFC 8259 numbers (sound and complete); decimal digit accumulation is exact up to 19 digits. Tie: every printed number (f64 over every exponent, neighbours of powers of ten, random; f32; all 8-bit and sampled wider integers incl. 128-bit; DOM routes) must be an RFC number whose exact value per Spec/Num.v is the value written (f32: narrowed once), and must read back bit-identically; raw numbers bare/quoted verbatim with agreeing accessors; malformed raw numbers rejected.",
+    "PARTIAL: ryu and itoa are third-party; their output is checked per case, not proved (the thorough tier sweeps all 2^32 f32 values, implementation only).",
+    "Coq proof (number grammar both directions) + per-value validation of the printer against the exact decimal specification")
+
 NA = {}
 ALL = ["C%02d" % i for i in range(1, 21)]
 for p in ALL:
